@@ -1414,6 +1414,7 @@ func (c *cluster) markResizeInstructionComplete(complete *ResizeInstructionCompl
 
 	j.mu.Lock()
 	defer j.mu.Unlock()
+	verifPoint("cluster.mric.locked", uint64(complete.JobID), 0)
 
 	if j.isComplete() {
 		return fmt.Errorf("resize job %d is no longer running", j.ID)
